@@ -69,7 +69,16 @@ def state(rng, dims, kind, cplx):
     else:
         r = gen.feasible_ranks(dims, [1] * d, [1] + [int(rng.integers(1, 4)) for _ in range(d - 1)] + [1])
     with probe.oracle():
-        if kind == 'maximal' and d > 1 and rng.random() < 0.25:
+        if kind == 'maximal' and d > 1 and rng.random() < 0.12:
+            # a product state stored at full bond dimension (zero padding, as x + 0 * y produces it): maximal TT ranks with directions of
+            # exactly zero weight, right-orthonormalised like every other state
+            cs = []
+            for i, m in enumerate(dims):
+                c = np.zeros((r[i], m, 1, r[i + 1]), dtype=complex if cplx else float)
+                c[0, :, 0, 0] = gen.randn(rng, (m,), cplx)
+                cs.append(c)
+            t = tt.TT(gen.right_orthonormal_cores(cs))
+        elif kind == 'maximal' and d > 1 and rng.random() < 0.25:
             # weakly entangled state of maximal ranks: a product state plus a full-rank admixture of relative size 1e-7.5..1e-6.3
             # (singular values across every bond far above any truncation threshold, far below the leading one)
             v = np.ones(1, dtype=complex if cplx else float)
